@@ -503,3 +503,61 @@ where
 {
     guard(|| cv(precis_core::profile::stabilize(s, f)))
 }
+
+// ------------------------------------------------- C01 helper probes ----
+
+/// enforce through Profile and render any error with Display (no panic expected)
+pub fn enforce_display(p: Prof, s: &str) -> Out<usize> {
+    guard_v(|| {
+        let r = with_profile!(p, x => x.enforce(s).map(|c| c.len()));
+        match r {
+            Ok(n) => n,
+            Err(e) => {
+                let text = format!("{} / {:?}", e, e);
+                let _ = std::error::Error::source(&e);
+                text.len()
+            }
+        }
+    })
+}
+
+/// allows() error rendered with Display
+pub fn allows_display(c: Class, s: &str) -> Out<usize> {
+    guard_v(|| {
+        let r = match c {
+            Class::Identifier => IdentifierClass::default().allows(s),
+            Class::Freeform => FreeformClass::default().allows(s),
+        };
+        match r {
+            Ok(()) => 0,
+            Err(e) => format!("{}", e).len(),
+        }
+    })
+}
+
+/// stabilize driven by a real profile rule chain (Nickname normalization + additional mapping)
+pub fn stabilize_with_rules(s: &str) -> R {
+    let n = Nickname::new();
+    stabilize(s, |x| {
+        let y = n.additional_mapping_rule(x)?;
+        n.normalization_rule(y)
+    })
+}
+
+/// Codepoints comparisons / Display on arbitrary values
+pub fn codepoints_probe(a: u32, b: u32, cp: u32) -> Out<usize> {
+    use precis_core::Codepoints;
+    guard_v(|| {
+        let s = Codepoints::Single(a);
+        let r = Codepoints::Range(a..=b);
+        let mut n = 0usize;
+        for e in [&s, &r] {
+            n += e.partial_cmp(&cp).map(|_| 1).unwrap_or(0);
+            n += cp.partial_cmp(e).map(|_| 1).unwrap_or(0);
+            n += (*e == cp) as usize + (cp == *e) as usize + (*e < cp) as usize + (*e >= cp) as usize;
+            n += format!("{}", e).len();
+        }
+        n += (s == r) as usize + (r == (a..=b)) as usize + ((a, b) == r) as usize;
+        n
+    })
+}
